@@ -246,7 +246,7 @@ func C04(c *Ctx) {
 			r.Check(!bad, "R04.3", key, pos, "after a status transition the record is written only across the no-error edge of setFSM", "the record is written although setFSM rejected the event")
 		}
 	}
-	r.Floor("R04.2", "tx record writes in TransactionManager", nW, 4)
+	r.Floor("R04.2", "tx record writes in TransactionManager", nW, 2)
 
 	// the timeout edge is applied to whatever the timeout list holds: the list invariant is part of C04
 	r.Rule("R04.4", "timeout-list invariant (shared with C06): every accepted receipt removes its request from the list of the recorded height; the stored list stays readable; per-block accumulators extend the element they looked up. Otherwise a finished transaction is overwritten with BEGIN_ROLLBACK at its timeout height.")
